@@ -510,6 +510,15 @@ class FastSim:
         self.cycles += 1
         self._settle()
 
+    def poke(self, writes):
+        """set input signals and propagate the combinational network only (no clock edge)"""
+        v = self.v
+        for s, val in writes:
+            i = self._i(s)
+            v[i] = val & ((1 << s.nbits) - 1)
+        self.n[:] = v
+        self._settle()
+
     def tick(self, on_rising):
         dt, rising, falling = self.time.tick()
         v, n = self.v, self.n
@@ -551,6 +560,11 @@ class MigenSim:
         # single-clock designs: one tick is the rising edge, the next the falling edge
         self.tick(lambda cd: [])
         self.cycles += 1
+
+    def poke(self, writes):
+        for s, val in writes:
+            self.ev.assign(s, val)
+        self.sim._commit_and_comb_propagate()
 
     def tick(self, on_rising):
         sim = self.sim
